@@ -15,6 +15,7 @@ import os
 import sys
 
 VERIF = os.path.dirname(os.path.dirname(os.path.abspath(__file__)))
+nested = {}       # qual -> quals of the functions defined inside it (counted with their outer function)
 sys.path.insert(0, os.path.join(VERIF, 'harness'))
 import common      # noqa: E402
 import srcunits    # noqa: E402
@@ -47,6 +48,8 @@ def functions(path):
         for n in body:
             if isinstance(n, (ast.FunctionDef, ast.AsyncFunctionDef)):
                 out[prefix + n.name] = code_lines(n, lines)
+                nested[prefix + n.name] = [prefix + n.name + '.' + m.name for m in ast.walk(n)
+                                           if isinstance(m, ast.FunctionDef) and m is not n]
             elif isinstance(n, ast.ClassDef):
                 walk(n.body, prefix + n.name + '.')
     walk(tree.body, '')
@@ -86,8 +89,21 @@ def main():
             if f.endswith('.py'):
                 files.append(os.path.relpath(os.path.join(root, f), PKG))
     detail = {}
+    allfns = {rel: functions(os.path.join(PKG, rel)) for rel in sorted(files)}
+    # a unit may read several files (its instances name the function, not the file) and may lift nested functions
+    for (r, q) in list(status):
+        if q in allfns.get(r, {}):
+            continue
+        homes = [rel for rel, fns in allfns.items() if q in fns]
+        outer = [(rel, o) for rel, fns in allfns.items() for o in fns if q in nested.get(o, [])]
+        if len(homes) == 1:
+            kind, units = status.pop((r, q))
+            k0, u0 = status.get((homes[0], q), (kind, set()))
+            status[(homes[0], q)] = ('translated' if 'translated' in (kind, k0) else kind, u0 | units)
+        elif outer:
+            status.pop((r, q))          # a local function: counted with the function that contains it
     for rel in sorted(files):
-        fns = functions(os.path.join(PKG, rel))
+        fns = allfns[rel]
         if not fns:
             continue
         per = {'translated': [0, 0], 'pinned': [0, 0], 'outside': [0, 0]}
